@@ -283,6 +283,9 @@ func (s *State) load(lv *lvalue) *Value {
 		if n, ok := finalGlobalLen[lv.prefix]; ok && v.K == VSlice {
 			s.assume(Eq(v.Len, mkInt(n)))
 		}
+		if finalGlobalNonNil[lv.prefix] && v.K == VIface {
+			s.assume(Neq(v.Typ, mkInt(0)), Neq(v.S, mkInt(0)))
+		}
 		return v
 	case lvMap:
 		return s.mapGet(lv.mapT, lv.ref, lv.idx)
